@@ -1395,6 +1395,9 @@ package ion
 //@ interface Reader.StringValue
 //@ pure
 //@ ensures err == nil && !recv.IsNull() ==> result != nil
+//@ interface Reader.BoolValue
+//@ pure
+//@ ensures err == nil && !recv.IsNull() ==> result != nil
 
 //@ func (*Decoder).decodeIntTo
 //@ split returns
@@ -1412,18 +1415,21 @@ package ion
 //@ requires d.r != nil && !d.r.IsNull()
 //@ modifies *
 //@ atcall[C13,C17] (reflect.Value).SetFloat :: reflect.Value, float64 :: !a0.OverflowFloat(a1)
+//@ atcall[C16] (reflect.Value).SetFloat :: reflect.Value, float64 :: specFloatOf(d.r) != nil && (a1 == *specFloatOf(d.r) || (a1 != a1 && *specFloatOf(d.r) != *specFloatOf(d.r)))
 //@ safe[C06,C17]
 
 //@ func (*Decoder).decodeSymbolTo
 //@ split returns
 //@ requires d.r != nil && !d.r.IsNull()
 //@ modifies *
+//@ atcall[C16,C17] (reflect.Value).SetString :: reflect.Value, string :: specSymbolOf(d.r) != nil && specSymbolOf(d.r).Text != nil && a1 == *specSymbolOf(d.r).Text
 //@ safe[C06,C17]
 
 //@ func (*Decoder).decodeStringTo
 //@ split returns
 //@ requires d.r != nil && !d.r.IsNull()
 //@ modifies *
+//@ atcall[C16] (reflect.Value).SetString :: reflect.Value, string :: specStringOf(d.r) != nil && a1 == *specStringOf(d.r)
 //@ safe[C06,C17]
 
 //@ func (*Decoder).decodeToStructWithAnnotation
@@ -1478,3 +1484,46 @@ package ion
 //@ atcall[C16] Writer.WriteString :: Writer, string :: v.Kind() == reflect.String && hint != SymbolType
 //@ atcall[C16] Writer.WriteSymbolFromString :: Writer, string :: v.Kind() == reflect.String && hint == SymbolType
 //@ atcall[C16] Writer.WriteNull :: Writer :: !v.IsValid()
+
+//@ func (*Decoder).decodeBoolTo
+//@ split returns
+//@ requires d.r != nil && !d.r.IsNull()
+//@ modifies *
+//@ atcall[C16] (reflect.Value).SetBool :: reflect.Value, bool :: a0.Kind() == reflect.Bool && specBoolOf(d.r) != nil && a1 == *specBoolOf(d.r)
+//@ safe[C06,C16]
+
+//@ func (*Decoder).decodeDecimalTo
+//@ trusted thin: called by contract (reflection-heavy, not under contract)
+//@ modifies *
+//@ func (*Decoder).decodeTimestampTo
+//@ trusted thin: called by contract (reflection-heavy, not under contract)
+//@ modifies *
+//@ func (*Decoder).decodeLobTo
+//@ trusted thin: called by contract (reflection-heavy, not under contract)
+//@ modifies *
+//@ func (*Decoder).decodeStructTo
+//@ trusted thin: called by contract (reflection-heavy, not under contract)
+//@ modifies *
+//@ func (*Decoder).decodeSliceTo
+//@ trusted thin: called by contract (reflection-heavy, not under contract)
+//@ modifies *
+//@ func indirect
+//@ modifies nothing
+//@ invariant loop0 true
+
+// The decoder's kind dispatch: each decodeXTo helper runs only on a non-null value of its own
+// Ion type (C16); a null never reaches a typed helper.
+//@ func (*Decoder).decodeTo
+//@ split returns
+//@ requires d.r != nil
+//@ modifies *
+//@ atcall[C16] (*Decoder).decodeBoolTo d.r.Type() == BoolType && !d.r.IsNull()
+//@ atcall[C16] (*Decoder).decodeIntTo d.r.Type() == IntType && !d.r.IsNull()
+//@ atcall[C16] (*Decoder).decodeFloatTo d.r.Type() == FloatType && !d.r.IsNull()
+//@ atcall[C16] (*Decoder).decodeDecimalTo d.r.Type() == DecimalType && !d.r.IsNull()
+//@ atcall[C16] (*Decoder).decodeTimestampTo d.r.Type() == TimestampType && !d.r.IsNull()
+//@ atcall[C16] (*Decoder).decodeStringTo d.r.Type() == StringType && !d.r.IsNull()
+//@ atcall[C16] (*Decoder).decodeSymbolTo d.r.Type() == SymbolType && !d.r.IsNull()
+//@ atcall[C16] (*Decoder).decodeLobTo (d.r.Type() == BlobType || d.r.Type() == ClobType) && !d.r.IsNull()
+//@ atcall[C16] (*Decoder).decodeStructTo d.r.Type() == StructType && !d.r.IsNull()
+//@ atcall[C16] (*Decoder).decodeSliceTo (d.r.Type() == ListType || d.r.Type() == SexpType) && !d.r.IsNull()
